@@ -96,7 +96,8 @@ def check_props(prop_file, timeout=900):
     Returns dict(theorems=[(name, ok)], assumptions={name: [axioms]}, log=str, ok=bool)."""
     path = os.path.join(COQ, prop_file)
     src = open(path).read()
-    names = [(m.group(2), src[:m.start()].count("\n") + 1) for m in THM.finditer(strip_comments(src))]
+    stripped = strip_comments(src)     # newlines inside comments are kept, so line numbers agree with the file
+    names = [(m.group(2), stripped[:m.start()].count("\n") + 1) for m in THM.finditer(stripped)]
     with Lock("coq"):
         rc, out = sh(["timeout", str(timeout), "coqc", "-Q", ".", "OM", prop_file], cwd=COQ)
     fail_line = None
